@@ -11,6 +11,8 @@ they connected before."
 the history `h` of subscribe / disconnect / register / unregister events, `n` units being known.
 Everything below is stated against declarative readings of the *history* (`Live`, `Registered`), not against the
 model's private connection map.
+Histories also contain `engineDown e` / `engineUp e` (`FromEngine.engine_disconnected` / `register_engine_data`): the
+unit's `EngineData` leaves the map / is replaced by a fresh one (`engine_outage_empties_unit`).
 
 Result: three of the four clauses hold for **all** histories.  The clause "listed ⇒ has a live connection" does
 not: `register_active_user` is an HTTP call that the aggregator cannot tie to a websocket, so a user who registers
@@ -25,10 +27,12 @@ open OPM.ActiveUsers
 def Live (h : List Op) (c u : Nat) : Prop :=
   ∃ h₁ ts h₂, h = h₁ ++ Op.subscribe c ts :: h₂ ∧ u ∈ subscribedUsers ts ∧ Op.disconnect c ∉ h₂
 
-/-- User `u` is registered on unit `e` after `h`: the unit exists, and there is a registration that no later
-    unregistration of that user on that unit undid. -/
+/-- User `u` is registered on unit `e` after `h`: the unit exists, and there is a registration that nothing undid
+    later: no unregistration of that user on that unit, and the unit's engine neither went away nor re-registered
+    (either one gives the unit a new, empty list — also when the engine comes back). -/
 def Registered (n : Nat) (h : List Op) (e u : Nat) : Prop :=
-  e < n ∧ ∃ h₁ h₂, h = h₁ ++ Op.register e u :: h₂ ∧ Op.unregister e u ∉ h₂
+  e < n ∧ ∃ h₁ h₂, h = h₁ ++ Op.register e u :: h₂ ∧
+    Op.unregister e u ∉ h₂ ∧ Op.engineDown e ∉ h₂ ∧ Op.engineUp e ∉ h₂
 
 def Listed (n : Nat) (h : List Op) (e u : Nat) : Prop := (e, u) ∈ (run n h).active
 
@@ -49,18 +53,22 @@ theorem live_snoc (h : List Op) (op : Op) (c u : Nat) :
 
 theorem registered_snoc (n : Nat) (h : List Op) (op : Op) (e u : Nat) :
     Registered n (h ++ [op]) e u ↔
-      (Registered n h e u ∧ op ≠ .unregister e u) ∨ (e < n ∧ op = .register e u) := by
+      (Registered n h e u ∧ op ≠ .unregister e u ∧ op ≠ .engineDown e ∧ op ≠ .engineUp e) ∨
+      (e < n ∧ op = .register e u) := by
   constructor
-  · rintro ⟨hn, h₁, h₂, eq, hd⟩
+  · rintro ⟨hn, h₁, h₂, eq, hd1, hd2, hd3⟩
     rcases (snoc_eq_split h op h₁ _ h₂).1 eq with ⟨_, _, rfl⟩ | ⟨h₂', rfl, rfl⟩
     · exact Or.inr ⟨hn, rfl⟩
-    · simp only [List.mem_append, List.mem_singleton, not_or] at hd
-      exact Or.inl ⟨⟨hn, h₁, h₂', rfl, hd.1⟩, fun e => hd.2 e.symm⟩
-  · rintro (⟨⟨hn, h₁, h₂, rfl, hd⟩, hne⟩ | ⟨hn, rfl⟩)
-    · refine ⟨hn, h₁, h₂ ++ [op], by simp, ?_⟩
-      simp only [List.mem_append, List.mem_singleton, not_or]
-      exact ⟨hd, fun e => hne e.symm⟩
-    · exact ⟨hn, h, [], rfl, by simp⟩
+    · simp only [List.mem_append, List.mem_singleton, not_or] at hd1 hd2 hd3
+      exact Or.inl ⟨⟨hn, h₁, h₂', rfl, hd1.1, hd2.1, hd3.1⟩, fun e => hd1.2 e.symm, fun e => hd2.2 e.symm,
+        fun e => hd3.2 e.symm⟩
+  · rintro (⟨⟨hn, h₁, h₂, rfl, hd1, hd2, hd3⟩, hne1, hne2, hne3⟩ | ⟨hn, rfl⟩)
+    · refine ⟨hn, h₁, h₂ ++ [op], by simp, ?_, ?_, ?_⟩ <;>
+        simp only [List.mem_append, List.mem_singleton, not_or]
+      · exact ⟨hd1, fun e => hne1 e.symm⟩
+      · exact ⟨hd2, fun e => hne2 e.symm⟩
+      · exact ⟨hd3, fun e => hne3 e.symm⟩
+    · exact ⟨hn, h, [], rfl, by simp, by simp, by simp⟩
 
 /-- The connection map of the code is exactly the set of live connections of the history — however often a user
     connected and disconnected before ("no matter how many times they connected before"). -/
@@ -82,19 +90,47 @@ theorem listed_implies_registered (n : Nat) (h : List Op) (e u : Nat) (hl : List
     rw [run_snoc, active_step] at hl
     rw [registered_snoc]
     cases op with
-    | subscribe c ts => exact Or.inl ⟨ih e u hl, by simp⟩
-    | disconnect c => exact Or.inl ⟨ih e u hl.1, by simp⟩
+    | subscribe c ts => exact Or.inl ⟨ih e u hl, by simp, by simp, by simp⟩
+    | disconnect c => exact Or.inl ⟨ih e u hl.1, by simp, by simp, by simp⟩
     | register e' u' =>
-      rcases hl with hl | ⟨hlt, rfl, rfl⟩
-      · exact Or.inl ⟨ih e u hl, by simp⟩
-      · exact Or.inr ⟨hlt, rfl⟩
+      rcases hl with hl | ⟨hk, rfl, rfl⟩
+      · exact Or.inl ⟨ih e u hl, by simp, by simp, by simp⟩
+      · exact Or.inr ⟨hk.1, rfl⟩
     | unregister e' u' =>
       simp only at hl
       have hr := ih e u hl.1
-      refine Or.inl ⟨hr, ?_⟩
+      refine Or.inl ⟨hr, ?_, by simp, by simp⟩
       intro heq
       simp only [Op.unregister.injEq] at heq
-      exact hl.2 ⟨heq.1 ▸ hr.1, heq.1.symm, heq.2.symm⟩
+      exact hl.2 ⟨heq.1 ▸ active_up n h e u hl.1, heq.1.symm, heq.2.symm⟩
+    | engineDown e' =>
+      simp only at hl
+      refine Or.inl ⟨ih e u hl.1, by simp, ?_, by simp⟩
+      intro heq
+      simp only [Op.engineDown.injEq] at heq
+      exact hl.2 ⟨heq ▸ active_up n h e u hl.1, heq.symm⟩
+    | engineUp e' =>
+      simp only at hl
+      refine Or.inl ⟨ih e u hl.1, by simp, by simp, ?_⟩
+      intro heq
+      simp only [Op.engineUp.injEq] at heq
+      exact hl.2 ⟨heq ▸ (active_up n h e u hl.1).1, heq.symm⟩
+
+/-- When a unit's engine goes away, or registers (again), the unit's list is empty: nobody stays listed across an
+    engine outage, whatever happens to their connections meanwhile. -/
+theorem engine_outage_empties_unit (n : Nat) (h : List Op) (e u : Nat) :
+    ¬ Listed n (h ++ [.engineDown e]) e u ∧ ¬ Listed n (h ++ [.engineUp e]) e u := by
+  constructor <;> intro hl
+  · have := listed_implies_registered n _ e u hl
+    rw [registered_snoc] at this
+    rcases this with ⟨_, _, hne, _⟩ | ⟨_, heq⟩
+    · exact hne rfl
+    · cases heq
+  · have := listed_implies_registered n _ e u hl
+    rw [registered_snoc] at this
+    rcases this with ⟨_, _, _, hne⟩ | ⟨_, heq⟩
+    · exact hne rfl
+    · cases heq
 
 /-- Clause 3 (all histories): when the last live connection of a user closes, the user is removed from every
     unit — whatever happened before. -/
@@ -154,6 +190,12 @@ theorem listed_implies_live_partial (n : Nat) (h : List Op) (hreg : RegistersWhi
     | unregister e' u' =>
       obtain ⟨c', hc'⟩ := ih e u hl.1
       exact ⟨c', (live_snoc _ _ _ _).2 (Or.inl ⟨hc', by simp⟩)⟩
+    | engineDown e' =>
+      obtain ⟨c', hc'⟩ := ih e u hl.1
+      exact ⟨c', (live_snoc _ _ _ _).2 (Or.inl ⟨hc', by simp⟩)⟩
+    | engineUp e' =>
+      obtain ⟨c', hc'⟩ := ih e u hl.1
+      exact ⟨c', (live_snoc _ _ _ _).2 (Or.inl ⟨hc', by simp⟩)⟩
     | disconnect c =>
       simp only at hl
       obtain ⟨c', hc'⟩ := ih e u hl.1
@@ -186,11 +228,11 @@ theorem C37_counterexample : ¬ C37_full := by
 
 /-! No over-removal (guards against a model that lists nobody). -/
 
-theorem register_lists (n : Nat) (h : List Op) (e u : Nat) (he : e < n) :
+theorem register_lists (n : Nat) (h : List Op) (e u : Nat) (he : e < n) (hup : e ∉ (run n h).down) :
     Listed n (h ++ [.register e u]) e u := by
   unfold Listed
   rw [run_snoc, active_step]
-  exact Or.inr ⟨he, rfl, rfl⟩
+  exact Or.inr ⟨⟨he, hup⟩, rfl, rfl⟩
 
 theorem disconnect_with_other_connection_keeps (n : Nat) (h : List Op) (c c' e u : Nat)
     (hl : Listed n h e u) (hne : c' ≠ c) (hlive : Live h c' u) : Listed n (h ++ [.disconnect c]) e u := by
@@ -225,6 +267,11 @@ example : (run 1 [s 0 0, .register 0 0, .disconnect 0, s 1 0, .register 0 0, .di
 /-- two connections: the first disconnect keeps the user, the second removes them from both units. -/
 example : (run 2 [s 0 0, s 1 0, .register 0 0, .register 1 0, .disconnect 0]).active = [(1, 0), (0, 0)] := by decide
 example : (run 2 [s 0 0, s 1 0, .register 0 0, .register 1 0, .disconnect 0, .disconnect 1]).active = [] := by decide
+/-- engine outage: the unit's list is gone with the engine; a user whose last connection closes during the outage is
+    not listed when the engine is back; a registration while the engine is away is refused. -/
+example : (run 1 [s 0 0, .register 0 0, .engineDown 0, .disconnect 0, .engineUp 0]).active = [] := by decide
+example : (step 1 (run 1 [s 0 0, .engineDown 0]) (.register 0 0)).2 = .false := by decide
+example : (run 2 [s 0 0, .register 0 0, .register 1 0, .engineDown 0, .engineUp 0]).active = [(1, 0)] := by decide
 end examples
 
 /-- Regression witness: the code before the repair keeps the user listed after the second round (the connection
